@@ -24,7 +24,7 @@ type HarnessSpec struct {
 	Covers    []string       `json:"covers"`
 	Only      string         `json:"only,omitempty"` // "quick" | "thorough" | ""
 	Native    *bool          `json:"native,omitempty"`
-	Symmetry  bool           `json:"symmetry,omitempty"`
+	NoSymmetry bool          `json:"no_symmetry,omitempty"`
 	TimeoutQ  int            `json:"timeout_quick,omitempty"`
 	TimeoutT  int            `json:"timeout_thorough,omitempty"`
 	Note      string         `json:"note,omitempty"`
@@ -65,6 +65,7 @@ type nativeOutcome struct {
 }
 
 type nativeRunner struct {
+	raceTwin *nativeRunner
 	bin     string
 	workDir string
 	err     error
@@ -123,6 +124,9 @@ func (nr *nativeRunner) build(g *Engine) error {
 }
 
 func (nr *nativeRunner) cleanup() {
+	if nr.raceTwin != nil {
+		nr.raceTwin.cleanup()
+	}
 	if nr.workDir != "" {
 		os.RemoveAll(nr.workDir)
 	}
@@ -347,7 +351,7 @@ func cmdCheck(args []string) int {
 				tmo = 1800
 			}
 		}
-		g.cfg.Symmetry = hs.Symmetry
+		g.cfg.Symmetry = !hs.NoSymmetry
 		maxW := 8
 		if tier == "thorough" {
 			maxW = 24
@@ -369,7 +373,7 @@ func cmdCheck(args []string) int {
 		}
 		native := hs.Native == nil || *hs.Native
 		// witness replays: engine concrete re-execution vs native run
-		if native && len(res.Witnesses) > 0 {
+		if native && len(res.Witnesses) > 0 && len(res.Violations) == 0 {
 			if err := nr.build(g); err != nil {
 				inconc = append(inconc, "native replay build: "+err.Error())
 			} else {
@@ -383,7 +387,10 @@ func cmdCheck(args []string) int {
 				}
 			}
 		}
-		// counterexamples
+		// counterexamples (at most three per harness are confirmed and reported)
+		if len(res.Violations) > maxViolationsPerHarness {
+			res.Violations = res.Violations[:maxViolationsPerHarness]
+		}
 		for _, v := range res.Violations {
 			how, ok := g.confirmViolation(nr, hs.Fn, params, v, native, res.MaxThreads > 1)
 			if ok {
@@ -392,6 +399,11 @@ func cmdCheck(args []string) int {
 			} else {
 				inconc = append(inconc, fmt.Sprintf("%s: counterexample %s did not reproduce (%s) — encoding or stub suspect", hs.Fn, v.Sig, how))
 			}
+		}
+		if len(confirmed) > 0 {
+			// fail fast: the property is violated; the remaining harnesses would only add time
+			fmt.Fprintf(os.Stderr, "[%s] confirmed violation in %s: remaining harnesses skipped\n", prop, hs.Fn)
+			break
 		}
 	}
 	// classify against known findings
@@ -527,11 +539,16 @@ func (g *Engine) confirmViolation(nr *nativeRunner, harness string, params map[s
 	var last *nativeOutcome
 	runner := nr
 	if v.Kind == "race" {
-		// data races are replayed under the Go race detector
-		rr := &nativeRunner{race: true}
-		if err := rr.build(g); err == nil {
-			runner = rr
-			defer rr.cleanup()
+		// data races are replayed under the Go race detector (binary built once per check)
+		if nr.raceTwin == nil {
+			nr.raceTwin = &nativeRunner{race: true}
+			nr.raceTwin.build(g)
+		}
+		if nr.raceTwin.err == nil {
+			runner = nr.raceTwin
+		}
+		if tries > 25 {
+			tries = 25
 		}
 	}
 	for i := 0; i < tries; i++ {
